@@ -274,7 +274,7 @@ theorem le_getLast (l : List Int) (hs : l.Pairwise (· ≤ ·)) (x : Int) (hx : 
   · simp only [List.mem_singleton] at h; subst h; exact Int.le_refl _
 
 theorem tdiv2_near (f l v δ : Int) (h1 : f ≤ v) (h2 : v ≤ l) (h3 : l - f ≤ δ) :
-    2 * absI (v - Int.tdiv (l + f) 2) ≤ δ + 1 := by
+    2 * absI (v - Int.tdiv (l + f) 2) ≤ δ + δ % 2 := by
   by_cases hs : 0 ≤ l + f
   · rw [Int.tdiv_eq_ediv_of_nonneg hs]
     simp only [absI]; split <;> omega
@@ -294,6 +294,25 @@ theorem tdiv2_between (f l : Int) (h : f ≤ l) : f ≤ Int.tdiv (l + f) 2 ∧ I
       rw [this, Int.tdiv_eq_ediv_of_nonneg (by omega)]
     rw [e]; omega
 
+/-- The representative the code chooses, `(last + first) / 2` (truncating), is a best integer
+centre of the interval: its largest distance to a member is at most that of any integer `r`. -/
+theorem rep_minimax (f l v r : Int) (h1 : f ≤ v) (h2 : v ≤ l) :
+    absI (v - Int.tdiv (l + f) 2) ≤ absI (f - r) ∨ absI (v - Int.tdiv (l + f) 2) ≤ absI (l - r) := by
+  by_cases hs : 0 ≤ l + f
+  · rw [Int.tdiv_eq_ediv_of_nonneg hs]
+    simp only [absI]; repeat' split <;> omega
+  · have e : Int.tdiv (l + f) 2 = -((-(l + f)) / 2) := by
+      have := Int.neg_tdiv (-(l + f)) 2
+      rw [Int.neg_neg] at this
+      rw [this, Int.tdiv_eq_ediv_of_nonneg (by omega)]
+    rw [e]
+    simp only [absI]; repeat' split <;> omega
+
+/-- Two values an odd distance apart have no integer within half that distance of both. -/
+theorem no_half_when_odd (f l r : Int) (hodd : (l - f) % 2 = 1) :
+    ¬ (2 * absI (f - r) ≤ l - f ∧ 2 * absI (l - r) ≤ l - f) := by
+  simp only [absI]; repeat' split <;> omega
+
 /-- The final loop on a list of classes that are sorted, non-empty, of diameter ≤ `δ`, with
 members that are `i32`s: the midpoint is an `i32`, one representative per class, every member mapped to
 its class and close to the representative. -/
@@ -301,7 +320,7 @@ theorem emit_spec (δ : Int) : ∀ (sol : List (List Int)) (idx : Nat),
     (∀ cls ∈ sol, ClsOK δ cls ∧ cls.Pairwise (· ≤ ·) ∧ ∀ v ∈ cls, -2147483648 ≤ v ∧ v ≤ 2147483647) →
     ∃ reps m, emit sol idx = some (reps, m) ∧ reps.length = sol.length ∧
       ∀ v ∈ sol.flatten, ∃ k rep, lookupIdx m v = some (idx + k) ∧ reps[k]? = some rep ∧
-        2 * absI (v - rep) ≤ δ + 1 := by
+        2 * absI (v - rep) ≤ δ + δ % 2 := by
   intro sol
   induction sol with
   | nil => intro idx _; exact ⟨[], [], by simp [emit], rfl, by simp⟩
